@@ -97,7 +97,7 @@ pub broadcast group group_seq {
 pub broadcast proof fn lemma_le_len16(x: u16) ensures #[trigger] le16(x).len() == 2 { }
 pub broadcast proof fn lemma_le_len32(x: u32) ensures #[trigger] le32(x).len() == 4 { }
 pub broadcast proof fn lemma_le_len64(x: u64) ensures #[trigger] le64(x).len() == 8 { }
-pub broadcast group group_le { lemma_le_len16, lemma_le_len32, lemma_le_len64 }
+
 
 // ---------------------------------------------------------------------------------------
 // refusal (D6): a diverging call; `r` is the function's permitted refusal condition
@@ -192,3 +192,104 @@ pub fn string_as_bytes(s: &String) -> (r: &[u8])
 { s.as_bytes() }
 
 pub uninterp spec fn str_is_ascii(s: Seq<char>) -> bool;
+
+// ---------------------------------------------------------------------------------------
+// AML vocabulary (ACPI 6.5 section 20.2), written from the specification
+
+/// PkgLength: `total` encoded in `w` bytes (20.2.4)
+pub open spec fn pkg_enc(total: int, w: int) -> Seq<u8> {
+    if w == 1 { seq![total as u8] }
+    else if w == 2 { seq![(0x40 + total % 16) as u8, ((total / 16) % 256) as u8] }
+    else if w == 3 { seq![(0x80 + total % 16) as u8, ((total / 16) % 256) as u8, ((total / 4096) % 256) as u8] }
+    else { seq![(0xC0 + total % 16) as u8, ((total / 16) % 256) as u8, ((total / 4096) % 256) as u8, ((total / 1048576) % 256) as u8] }
+}
+/// shortest width whose value range can include the prefix itself
+pub open spec fn pkg_width(len: int) -> int {
+    if len + 1 < 64 { 1 } else if len + 2 < 4096 { 2 } else if len + 3 < 1048576 { 3 } else { 4 }
+}
+/// self-inclusive PkgLength of an object whose content is `len` bytes
+pub open spec fn pkg_incl(len: int) -> Seq<u8> { pkg_enc(len + pkg_width(len), pkg_width(len)) }
+/// the specification's decoding rule
+pub open spec fn pkg_decode(r: Seq<u8>) -> int {
+    if r.len() == 1 { (r[0] % 64) as int }
+    else if r.len() == 2 { (r[0] % 16) as int + (r[1] as int) * 16 }
+    else if r.len() == 3 { (r[0] % 16) as int + (r[1] as int) * 16 + (r[2] as int) * 4096 }
+    else { (r[0] % 16) as int + (r[1] as int) * 16 + (r[2] as int) * 4096 + (r[3] as int) * 1048576 }
+}
+/// lead-byte format: follow-byte count in bits 7-6, bits 5-4 zero when follow bytes exist
+pub open spec fn pkg_wf(r: Seq<u8>) -> bool {
+    &&& 1 <= r.len() <= 4
+    &&& (r.len() == 1 ==> r[0] < 64)
+    &&& (r.len() > 1 ==> (r[0] / 64) as int == r.len() - 1 && (r[0] / 16) % 4 == 0)
+}
+/// exclusive form (field widths): any well-formed encoding; pinned only by decode/wf (seam)
+pub uninterp spec fn pkg_excl(len: int) -> Seq<u8>;
+
+pub proof fn lemma_pkg_incl_decodes(len: int)
+    requires 0 <= len, len + 4 < 0x1000_0000
+    ensures pkg_wf(pkg_incl(len)),
+        pkg_decode(pkg_incl(len)) == len + pkg_incl(len).len(),
+        pkg_incl(len).len() == pkg_width(len),
+{
+    let w = pkg_width(len);
+    let t = len + w;
+    if w == 1 {
+    } else if w == 2 {
+        assert(((0x40 + t % 16) as u8) % 16 == t % 16);
+        assert(((0x40 + t % 16) as u8) / 64 == 1);
+    } else if w == 3 {
+        assert(((0x80 + t % 16) as u8) % 16 == t % 16);
+        assert(((0x80 + t % 16) as u8) / 64 == 2);
+    } else {
+        assert(((0xC0 + t % 16) as u8) % 16 == t % 16);
+        assert(((0xC0 + t % 16) as u8) / 64 == 3);
+    }
+}
+
+/// integer constants (20.2.3): ZeroOp / OneOp / narrowest prefix + little-endian value
+pub open spec fn spec_int(v: u64) -> Seq<u8> {
+    if v == 0 { seq![0x00u8] }
+    else if v == 1 { seq![0x01u8] }
+    else if v <= 0xff { seq![0x0au8] + seq![v as u8] }
+    else if v <= 0xffff { seq![0x0bu8] + le16(v as u16) }
+    else if v <= 0xffff_ffff { seq![0x0cu8] + le32(v as u32) }
+    else { seq![0x0eu8] + le64(v) }
+}
+
+/// NameString (20.2.2): root char, then nothing / DualNamePrefix / MultiNamePrefix count
+pub open spec fn name_prefix(n: int) -> Seq<u8> {
+    if n == 1 { Seq::<u8>::empty() } else if n == 2 { seq![0x2eu8] } else { seq![0x2fu8] + seq![n as u8] }
+}
+pub open spec fn cat_segs(s: Seq<[u8; 4]>) -> Seq<u8>
+    decreases s.len()
+{
+    if s.len() == 0 { Seq::<u8>::empty() } else { cat_segs(s.drop_last()) + s.last()@ }
+}
+pub open spec fn spec_name(root: bool, parts: Seq<[u8; 4]>) -> Seq<u8> {
+    (if root { seq![0x5cu8] } else { Seq::<u8>::empty() }) + (name_prefix(parts.len() as int) + cat_segs(parts))
+}
+pub broadcast proof fn lemma_cat_segs_step(s: Seq<[u8; 4]>, i: int)
+    requires 0 <= i < s.len()
+    ensures #[trigger] cat_segs(s.take(i + 1)) == cat_segs(s.take(i)) + s[i]@
+{ assert(s.take(i + 1).drop_last() =~= s.take(i)); }
+pub broadcast proof fn lemma_cat_segs_zero(s: Seq<[u8; 4]>)
+    ensures #[trigger] cat_segs(s.take(0)) == Seq::<u8>::empty()
+{ assert(s.take(0) =~= Seq::<[u8; 4]>::empty()); }
+pub broadcast proof fn lemma_segs_take_all(s: Seq<[u8; 4]>)
+    ensures #[trigger] s.take(s.len() as int) == s
+{ assert(s.take(s.len() as int) =~= s); }
+pub broadcast group group_segs { lemma_cat_segs_step, lemma_cat_segs_zero, lemma_segs_take_all }
+
+/// length-delimited object: opcode bytes, self-inclusive PkgLength, content
+pub open spec fn framed(op: Seq<u8>, body: Seq<u8>) -> Seq<u8> { op + (pkg_incl(body.len() as int) + body) }
+
+/// typed helper so that loop invariants can talk about a local whose type rustc infers later
+pub open spec fn vec_is(v: &Vec<u8>, s: Seq<u8>) -> bool { v@ == s }
+
+/// alloc invariant: a Vec<u8> never holds more than isize::MAX bytes (documented by alloc::vec)
+#[verifier::external_body]
+pub broadcast proof fn axiom_vec_u8_len(v: Vec<u8>)
+    ensures #[trigger] v@.len() <= 0x7fff_ffff_ffff_ffff
+{ }
+
+pub broadcast group group_le { lemma_le_len16, lemma_le_len32, lemma_le_len64, axiom_vec_u8_len }
